@@ -38,9 +38,13 @@ import (
 type job struct {
 	Fault bool
 	Idx   int
+	Torn  bool
 }
 
 func (j job) String() string {
+	if j.Torn {
+		return "T " + strconv.Itoa(j.Idx)
+	}
 	if j.Fault {
 		return "F " + strconv.Itoa(j.Idx)
 	}
@@ -66,6 +70,7 @@ type jobResult struct {
 func main() {
 	onlyPlain := flag.Int("only-plain", -1, "run only plain history <index> (reproduction)")
 	onlyFault := flag.Int("only-fault", -1, "run only fault history <index> (reproduction)")
+	onlyTorn := flag.Int("only-torn", -1, "run only torn (double-fault) history <index> (reproduction)")
 	workers := flag.Int("workers", 0, "worker processes (default: number of CPUs, max 16)")
 	child := flag.String("child", "", "internal: run as worker with this working directory")
 	template := flag.String("template", "", "internal: template directory for -child")
@@ -105,6 +110,7 @@ func main() {
 
 	nPlain := r.Pick(300, 5000)
 	nFault := r.Pick(40, 600)
+	nTorn := r.Pick(80, 1500)
 
 	scratch := os.Getenv("VERIF_SCRATCH")
 	if scratch == "" {
@@ -125,19 +131,24 @@ func main() {
 	}
 
 	var jobs []job
-	single := *onlyPlain >= 0 || *onlyFault >= 0
+	single := *onlyPlain >= 0 || *onlyFault >= 0 || *onlyTorn >= 0
 	switch {
 	case *onlyPlain >= 0:
-		jobs = []job{{false, *onlyPlain}}
+		jobs = []job{{Idx: *onlyPlain}}
 	case *onlyFault >= 0:
-		jobs = []job{{true, *onlyFault % faultIndexBase}}
+		jobs = []job{{Fault: true, Idx: *onlyFault % faultIndexBase}}
+	case *onlyTorn >= 0:
+		jobs = []job{{Torn: true, Idx: *onlyTorn}}
 	default:
 		// Fault histories first: they are the long ones.
 		for i := 0; i < nFault; i++ {
-			jobs = append(jobs, job{true, i})
+			jobs = append(jobs, job{Fault: true, Idx: i})
+		}
+		for i := 0; i < nTorn; i++ {
+			jobs = append(jobs, job{Torn: true, Idx: i})
 		}
 		for i := 0; i < nPlain; i++ {
-			jobs = append(jobs, job{false, i})
+			jobs = append(jobs, job{Idx: i})
 		}
 	}
 
@@ -211,13 +222,15 @@ func main() {
 	close(ch)
 	wg.Wait()
 
-	for _, k := range []string{"P 0", "P 1", "P 2", "F 0", "F 1"} {
+	for _, k := range []string{"P 0", "P 1", "P 2", "F 0", "F 1", "T 0", "T 1", "T 4"} {
 		if s, ok := samples[k]; ok {
 			r.Sample(s)
 		}
 	}
 	r.Set("plain_histories", nPlain)
 	r.Set("fault_histories", nFault)
+	r.Set("torn_histories", nTorn)
+	r.Set("torn_histories_fixed", min(nTorn, c07.FixedTorn))
 	r.Set("worker_processes", nw)
 	os.RemoveAll(root)
 	if single {
@@ -306,7 +319,9 @@ func childMain(seed int64, templateDir, dir string) {
 				Mark:         func(fp string) { res.Marks[fp]++ },
 			},
 		}
-		if f[0] == "F" {
+		if f[0] == "T" {
+			runTorn(res, run, seed, env, idx)
+		} else if f[0] == "F" {
 			runFault(res, run, seed, env, idx)
 		} else {
 			runPlain(res, run, seed, env, idx)
@@ -412,6 +427,47 @@ func runFault(res *jobResult, run *c07.Runner, seed int64, env *c07.Env, idx int
 		summary["completed_without_violation"] = ok
 		res.Samples = append(res.Samples, summary)
 	}
+}
+
+func runTorn(res *jobResult, run *c07.Runner, seed int64, env *c07.Env, idx int) {
+	h := c07.GenerateTorn(seed, idx, env)
+	_, _, summary := describe(h)
+	torn, stores, classes := 0, map[string]bool{}, map[string]bool{}
+	var ops []string
+	for i := range h.Ops {
+		op := &h.Ops[i]
+		s := fmt.Sprintf("%s(%d)", op.Kind, len(op.Blocks)+len(op.Filters)+int(int32(op.N)))
+		if t := op.Torn; t != nil {
+			torn++
+			stores[op.Kind] = true
+			classes[t.Class] = true
+			s += fmt.Sprintf("!double-fault[%s,%d bytes stay]", t.Class, t.Bytes)
+		}
+		ops = append(ops, s)
+	}
+	ok := run.RunTorn(h)
+	// One evaluation per double-fault append (counted by the runner) and one
+	// for the history as a whole.
+	run.Sink.Case(fmt.Sprintf("torn-history|%s|episodes=%d|stores=%d|classes=%d|len=%s", h.Class, torn, len(stores),
+		len(classes), tornLenBucket(len(h.Ops))), torn > 0)
+	run.Stats.Add("torn_histories_completed", b2i(ok))
+	if idx < 2 || idx == c07.FixedTorn {
+		summary["part"] = "torn"
+		summary["ops_written_out"] = ops
+		summary["completed_without_violation"] = ok
+		delete(summary, "first_ops")
+		res.Samples = append(res.Samples, summary)
+	}
+}
+
+func tornLenBucket(n int) string {
+	switch {
+	case n < 10:
+		return "<10"
+	case n < 25:
+		return "10-24"
+	}
+	return "25+"
 }
 
 func b2i(b bool) int64 {
